@@ -195,12 +195,17 @@ type procResult struct {
 // runWallet runs the wallet in dir. On watchdog expiry the process gets SIGQUIT first (Go prints
 // the goroutine stacks), then SIGKILL.
 func runWallet(bin, dir string, args []string, watchdog time.Duration) procResult {
+	return runWalletIn(bin, dir, args, watchdog, nil)
+}
+
+// runWalletIn: stdin holds what the user types (answers to -prompt)
+func runWalletIn(bin, dir string, args []string, watchdog time.Duration, stdin []byte) procResult {
 	cmd := exec.Command(bin, args...)
 	cmd.Dir = dir
 	cmd.Env = append(cleanEnv(), "GOTRACEBACK=all")
 	var so, se bytes.Buffer
 	cmd.Stdout, cmd.Stderr = &so, &se
-	cmd.Stdin = bytes.NewReader(nil)
+	cmd.Stdin = bytes.NewReader(stdin)
 	t0 := time.Now()
 	if err := cmd.Start(); err != nil {
 		return procResult{exit: -2, stderr: "exec error: " + err.Error()}
